@@ -93,7 +93,9 @@ End Eval.
 (* the function the correspondence lifts: digits of the arguments, None = 9 *)
 Definition digit (v : pval) : Z := match v with VNone => 9 | VInt z => z end.
 Fixpoint fcode (l : list pval) : Z := match l with [] => 0 | v :: r => digit v + 10 * fcode r end.
-Definition fdigits (l : list pval) : pval := VInt (fcode l).
+(* a code that is 3 mod 7 stands for a None result *)
+Definition fval (z : Z) : pval := if z mod 7 =? 3 then VNone else VInt z.
+Definition fdigits (l : list pval) : pval := fval (fcode l).
 
 (* ------------------------------------------------------------------ the dict-output path (_dict_output)
    A function declared with f.output = [o1; ...; on] returns a record of named outputs; previously
@@ -133,4 +135,4 @@ Section EvalN.
 End EvalN.
 
 (* the record the correspondence's function returns: output i (from 1) = digits of the arguments + 10000 i *)
-Definition fouts (n : nat) (l : list pval) : list pval := map (fun i => VInt (fcode l + 10000 * Z.of_nat i)) (seq 1 n).
+Definition fouts (n : nat) (l : list pval) : list pval := map (fun i => fval (fcode l + 10000 * Z.of_nat i)) (seq 1 n).
